@@ -315,9 +315,15 @@ func (u *UnitsDefinition) handleParseMultiplier(
 				Message: fmt.Sprintf("Failed to parse number as int: %s", result),
 			}
 		}
-		floatNumber += float64(i * multiplier)
+		product := i * multiplier
+		if i != 0 && (product/i != multiplier || (!isFloat && intNumber+product < intNumber)) {
+			return intNumber, floatNumber, isFloat, UnitParseError{
+				Message: fmt.Sprintf("Number out of range for a 64-bit integer: %s x %d", result, multiplier),
+			}
+		}
+		floatNumber += float64(product)
 		if !isFloat {
-			intNumber += i * multiplier
+			intNumber += product
 		}
 	}
 	return intNumber, floatNumber, isFloat, nil
